@@ -484,12 +484,16 @@ impl<'a> Ord for BorrowedTerm<'a> {
                 }
                 (BorrowedTerm::Map(a), BorrowedTerm::Map(b)) => {
                     a.len().cmp(&b.len()).then_with(|| {
-                        for ((k1, v1), (k2, v2)) in a.iter().zip(b.iter()) {
+                        // Erlang compares all keys first and the values only when every key is equal
+                        for (k1, k2) in a.keys().zip(b.keys()) {
                             match k1.cmp(k2) {
-                                Ordering::Equal => match v1.cmp(v2) {
-                                    Ordering::Equal => continue,
-                                    other => return other,
-                                },
+                                Ordering::Equal => continue,
+                                other => return other,
+                            }
+                        }
+                        for (v1, v2) in a.values().zip(b.values()) {
+                            match v1.cmp(v2) {
+                                Ordering::Equal => continue,
                                 other => return other,
                             }
                         }
@@ -631,12 +635,12 @@ fn compare_bigint(a: &BigInt, b: &BigInt) -> Ordering {
             .digits
             .len()
             .cmp(&b.digits.len())
-            .then_with(|| a.digits.cmp(&b.digits)),
+            .then_with(|| a.digits.iter().rev().cmp(b.digits.iter().rev())),
         (Sign::Negative, Sign::Negative) => a
             .digits
             .len()
             .cmp(&b.digits.len())
-            .then_with(|| a.digits.cmp(&b.digits))
+            .then_with(|| a.digits.iter().rev().cmp(b.digits.iter().rev()))
             .reverse(),
     }
 }
